@@ -161,8 +161,8 @@ EXPORT errno_t _wctomb_s_chk(int *restrict retvalp, char *restrict dest,
 #endif
         rc = EOK;
     } else {
-        /* errno is usually EILSEQ */
-        rc = (len > 0) ? ESNOSPC : errno;
+        /* -1: illegal wide character; 0: only the dest == NULL state query */
+        rc = (len > 0) ? ESNOSPC : (len < 0) ? EILSEQ : EOK;
         if (dest) {
             /* the entire src must have been copied, if not reset dest
              * to null the string. (only with SAFECLIB_STR_NULL_SLACK)
